@@ -159,6 +159,15 @@ pub fn scripts(seed: u64) -> Vec<Script> {
             },
         },
         Script {
+            name: "sorenson: I 32x16, disposable all-intra 16x16 (another size), P 32x16",
+            opts: 1,
+            calls: vec![
+                a(encode_bytes(&noise_intra(shdr(32, 16, 0, 0, 6, 0), seed ^ 14))),
+                a(encode_bytes(&Pic { hdr: shdr(16, 16, 2, 1, 6, 0), mbs: vec![Mb::intra_flat(200)] })),
+                a(p_pic(shdr(32, 16, 1, 2, 6, 0), &[Spec::Inter((2, 1), false), Spec::NotCoded], 2)),
+            ],
+        },
+        Script {
             name: "sorenson 24x19 (odd height): I, P with intra macroblocks in the clipped bottom row, D",
             opts: 1,
             calls: vec![
